@@ -102,6 +102,7 @@ C02Env ==
   /\ Check("bind_once", NoDup([i \in 1..Len(Obs.binds) |-> <<Obs.binds[i].p, Obs.binds[i].attr>>]))
   /\ Check("body_ref_abs", \A i \in 1..Len(Obs.body) : Obs.body[i].abs)
   /\ Check("body_closure", \A i \in 1..Len(Obs.body) : Obs.body[i].ref \in SeqSet(PlainPaths))
+  /\ Check("repeat_count_closure", \A i \in 1..Len(Obs.body) : Obs.body[i].count.has => Obs.body[i].count.p \in SeqSet(PlainPaths))
   /\ Check("body_ref_once",
            \A i, j \in 1..Len(Obs.body) :
               (i < j /\ Obs.body[i].ref = Obs.body[j].ref) =>
